@@ -59,6 +59,12 @@ EXTRA_SETS = [
     [("99999.ExtraG.1.0.dsdl", "@sealed\n")],
     [("ExtraH.0.0.dsdl", "@sealed\n")],
 ]
+PRE_EXTRA_SETS = [
+    [("Legacy.1.0.dsdl", "uint8 a\n@sealed\n"), ("Legacy.1.0.uavcan", "uint8 a\n@sealed\n")],
+    [("sub/Legacy.2.1.uavcan", "@sealed\n"), ("sub/Legacy.2.1.dsdl", "@sealed\n")],
+    [("6400.Ported.1.0.dsdl", "@sealed\n"), ("Ported.1.1.dsdl", "@sealed\n")],
+    [("Twice.1.0.dsdl", "@sealed\n"), ("7000.Twice.1.0.dsdl", "@sealed\n")],
+]
 MALFORMED_NAMES = ["Bad.x.y.dsdl", "Bad.dsdl", "a.b.Bad.1.0.dsdl"]
 
 
@@ -69,7 +75,7 @@ def _outcome(fn: typing.Callable[..., typing.Any], ws: typing.Any, d: str, print
         res = fn(lambda p, l, t: prints.append((os.path.relpath(os.path.realpath(str(p)), os.path.realpath(d)), l, t)))
     except pydsdl.InvalidDefinitionError as ex:
         p = os.path.relpath(os.path.realpath(str(ex.path)), os.path.realpath(d)) if ex.path else None
-        return ["error", type(ex).__name__, p, ex.line]
+        return ["error", type(ex).__name__, p, ex.line, ex.text.replace(os.path.realpath(d), "<ws>").replace(d, "<ws>")]
     if isinstance(res, tuple):
         return ["ok", nu.canonical(ws, res[0], d), nu.canonical(ws, res[1], d)]
     return ["ok", nu.canonical(ws, res, d)]
@@ -108,6 +114,17 @@ def check_isolation(case: typing.Any, ctx: Ctx) -> Info:
             def run(handler: typing.Any) -> typing.Any:
                 return pydsdl.read_files(paths, roots, None, handler)
 
+        lookup_only_roots = [i for i in range(len(roots)) if all(defs[t]["root"] != i for t in targets) and not (mode == "namespace" and i == ri)]
+        pre_added: typing.List[str] = []
+        if case.get("pre_extra") is not None and lookup_only_roots:
+            # unreferenced files that exist already before the first read (e.g. a legacy .uavcan copy next to its .dsdl twin)
+            lr0 = lookup_only_roots[case["pre_extra"]["root"] % len(lookup_only_roots)]
+            for rel, text in PRE_EXTRA_SETS[case["pre_extra"]["set"] % len(PRE_EXTRA_SETS)]:
+                p0 = os.path.join(roots[lr0], rel)
+                os.makedirs(os.path.dirname(p0), exist_ok=True)
+                with open(p0, "w") as f:
+                    f.write(text)
+                pre_added.append(os.path.join(wsp.root_dir(ws, lr0), rel))
         closure = wsp.closure(ws, targets)
         if fault_desc is not None:
             # the injected fault may add a reference (e.g. the back edge of a cycle) that the plain model does not list
@@ -124,10 +141,11 @@ def check_isolation(case: typing.Any, ctx: Ctx) -> Info:
         # ---- disturb
         disturbed: typing.List[str] = []
         victims = []
-        for k, v in enumerate(case["victims"]):
+        forced = [fault_desc["namesake"]] if fault_desc is not None and fault_desc.get("namesake") in outside else []
+        for k, v in enumerate(forced + list(case["victims"])):
             if not outside:
                 break
-            i = outside[v % len(outside)]
+            i = v if (k < len(forced)) else outside[v % len(outside)]
             if i in victims:
                 continue
             victims.append(i)
@@ -135,7 +153,12 @@ def check_isolation(case: typing.Any, ctx: Ctx) -> Info:
             with open(os.path.join(d, rel), "w") as f:
                 f.write(REPLACEMENTS[case["replacements"][k % len(case["replacements"])] % len(REPLACEMENTS)])
             disturbed.append(rel)
-        lookup_only_roots = [i for i in range(len(roots)) if all(defs[t]["root"] != i for t in targets) and not (mode == "namespace" and i == ri)]
+        if pre_added:
+            # one of the pre-existing unreferenced files changes its text
+            rel0 = pre_added[case["pre_extra"].get("which", 0) % len(pre_added)]
+            with open(os.path.join(d, rel0), "w") as f:
+                f.write(REPLACEMENTS[case["replacements"][0] % len(REPLACEMENTS)])
+            disturbed.append(rel0)
         added = []
         if case["extra"] is not None and lookup_only_roots:
             lr = lookup_only_roots[case["extra"]["root"] % len(lookup_only_roots)]
@@ -151,6 +174,10 @@ def check_isolation(case: typing.Any, ctx: Ctx) -> Info:
             mode, [wsp.rel_path(ws, defs[i]) for i in targets], disturbed, added, sorted(wsp.rel_path(ws, x) for x in defs))
         prints1: typing.List[typing.Any] = []
         after, _ = guarded(_outcome, run, ws, d, prints1, what="read:after")
+        if added and before[0] == "error" and after[0] == "error":
+            # the *listing* of the lookup directories legitimately shows in some messages (e.g. the set of root namespaces searched);
+            # files were added here, so only class, path and line are compared - texts are compared when texts alone were replaced
+            before, after = before[:4], after[:4]
         if after != before:
             kind = "outcome-changed"
             if before[0] == "ok" and after[0] == "error":
@@ -183,7 +210,7 @@ def parts(ctx: Ctx) -> typing.List[Part]:
     fault = st.one_of(
         st.none(),
         st.none(),
-        st.fixed_dictionaries({"kind": st.sampled_from(["missing-name", "missing-version", "self", "wrong-case", "cycle"]), "carrier": st.integers(0, 30), "other": st.integers(0, 30)}),
+        st.fixed_dictionaries({"kind": st.sampled_from(["missing-name", "missing-version", "missing-relative-namesake", "missing-relative-namesake", "self", "wrong-case", "cycle"]), "carrier": st.integers(0, 30), "other": st.integers(0, 30)}),
     )
     cases = st.fixed_dictionaries(
         {
@@ -195,6 +222,7 @@ def parts(ctx: Ctx) -> typing.List[Part]:
             "victims": st.lists(st.integers(0, 30), min_size=1, max_size=2),
             "replacements": st.lists(st.integers(0, len(REPLACEMENTS) - 1), min_size=1, max_size=2),
             "extra": st.one_of(st.none(), st.fixed_dictionaries({"root": st.integers(0, 3), "set": st.integers(0, len(EXTRA_SETS) - 1)})),
+            "pre_extra": st.one_of(st.none(), st.none(), st.fixed_dictionaries({"root": st.integers(0, 3), "set": st.integers(0, len(PRE_EXTRA_SETS) - 1), "which": st.integers(0, 1)})),
             "malformed": st.one_of(st.none(), st.none(), st.integers(0, 2)),
         }
     )
